@@ -435,7 +435,7 @@ def c06_no_wrap(ctx, repo):
 
 
 def c06_overflow_loop(ctx, repo):
-    ctx.rule("C06-loop", "the overflow handler in BaseTTXConverter.compile retries only after a successful fix-up, otherwise changes state or re-raises; a repeated identical overflow is not retried; promotion wraps every subtable", floor=6)
+    ctx.rule("C06-loop", "the overflow handler in BaseTTXConverter.compile retries only after a successful fix-up, otherwise changes state or re-raises; the resolver reports progress only from its fix-up functions; promotion wraps every subtable", floor=6)
     ob = repo.mod(OTB)
     f = ob.func("BaseTTXConverter.compile")
     hs = [h for t in ast.walk(f.node) if isinstance(t, ast.Try) for h in t.handlers if h.type is not None and "OTLOffsetOverflowError" in norm(h.type)]
@@ -454,12 +454,14 @@ def c06_overflow_loop(ctx, repo):
     ctx.ob("C06-loop", f.where, "unresolved overflow: switch HB_FT -> FT_FALLBACK, otherwise re-raise", ok and bool(raises) and bool(states), "" if ok else "handler can fall through without re-raising")
     rets = [n for s in h.body for n in ast.walk(s) if isinstance(n, ast.Return)]
     ctx.ob("C06-loop", f.where, "handler never returns data", not rets)
-    ok = any(isinstance(n, ast.Assign) and norm(n.targets[0]) == "lastOverflowRecord" and norm(n.value) == "e.value" for s in h.body for n in ast.walk(s))
-    ctx.ob("C06-loop", f.where, "lastOverflowRecord updated from the caught error", ok)
+    # (the `lastOverflowRecord == e.value` guard in tryResolveOverflow is NOT an obligation: OverflowErrorRecord defines no
+    # __eq__, so the comparison is by identity and never true; termination rests on fix-ups reporting progress, below)
     tr = ob.func("BaseTTXConverter.tryResolveOverflow")
-    first = [n for n in tr.node.body if isinstance(n, ast.If)]
-    ok = bool(first) and norm(first[0].test) == "lastOverflowRecord == e.value" and any(isinstance(x, ast.Return) for x in first[0].body)
-    ctx.ob("C06-loop", tr.where, "same record twice -> give up (return falsy)", ok, "" if ok else "repeat detection removed")
+    rets_tr = [n for n in ast.walk(tr.node) if isinstance(n, ast.Return)]
+    fixers = ("fixLookupOverFlows(font, overflowRecord)", "fixSubTableOverFlows(font, overflowRecord)")
+    oks = [norm(n.value) for n in ast.walk(tr.node) if isinstance(n, ast.Assign) and norm(n.targets[0]) == "ok"]
+    ok = bool(rets_tr) and all(norm(r.value) == "ok" or norm(r.value) in fixers for r in rets_tr) and bool(oks) and all(v == "0" or v in fixers for v in oks)
+    ctx.ob("C06-loop", tr.where, "tryResolveOverflow reports only what the fix-up functions report (ok is 0 or a fix-up's result, every return is ok or a fix-up's result)", ok, "" if ok else "a retry can be requested although nothing was changed: endless loop instead of an error")
     ot = repo.mod(OTT)
     fl = ot.func("fixLookupOverFlows")
     loops = [n for n in ast.walk(fl.node) if isinstance(n, ast.For) and norm(n.iter) == "enumerate(lookup.SubTable)"]
